@@ -30,6 +30,13 @@ __CPROVER_ensures(!DEV_FAIL_OLD ==> (DD->running == OLD(DD->running) && g_userfi
 __CPROVER_ensures(DEV_FAIL_OLD ==> (DP->state == NNI_DEVICE_STATE_FINI && DD->running == OLD(DD->running) - 1 && DD->rv != 0 && g_ssend_calls == OLD(g_ssend_calls) && g_srecv_calls == OLD(g_srecv_calls)))
 __CPROVER_ensures((DEV_FAIL_OLD && (OLD(DP->state) == NNI_DEVICE_STATE_SEND || OLD(DP->aio.a_result) == 0)) ==> (g_msgfree_calls == OLD(g_msgfree_calls) + 1 && g_msgfree_last == OLD(DP->aio.a_msg) && DP->aio.a_msg == NULL))
 __CPROVER_ensures((DEV_FAIL_OLD && OLD(DP->state) == NNI_DEVICE_STATE_RECV && OLD(DP->aio.a_result) != 0) ==> g_msgfree_calls == OLD(g_msgfree_calls))
+/* C02 (nothing stays pending when the underlying objects go away) / C13: when one direction fails, the other
+ * direction -- if it has not stopped already -- is aborted, exactly once, with the failing result (the device's
+ * recorded error when this completion itself was successful); a path that already stopped, and this path, are not */
+#define DEV_ABORT_RV_OK ((OLD(DP->aio.a_result) != 0 ==> g_abort_rv == (int) OLD(DP->aio.a_result)) && (OLD(DP->aio.a_result) == 0 ==> g_abort_rv == (int) OLD(DD->rv)))
+__CPROVER_ensures((DEV_FAIL_OLD && DD->num_paths == 2 && DP == &DD->paths[0] && DD->paths[1].state != NNI_DEVICE_STATE_FINI) ==> (g_abort_calls == OLD(g_abort_calls) + 1 && g_abort_last == &DD->paths[1].aio && DEV_ABORT_RV_OK))
+__CPROVER_ensures((DEV_FAIL_OLD && DD->num_paths == 2 && DP == &DD->paths[1] && DD->paths[0].state != NNI_DEVICE_STATE_FINI) ==> (g_abort_calls == OLD(g_abort_calls) + 1 && g_abort_last == &DD->paths[0].aio && DEV_ABORT_RV_OK))
+__CPROVER_ensures((DEV_FAIL_OLD && (DD->num_paths == 1 || (DP == &DD->paths[0] && DD->paths[1].state == NNI_DEVICE_STATE_FINI) || (DP == &DD->paths[1] && DD->paths[0].state == NNI_DEVICE_STATE_FINI))) ==> g_abort_calls == OLD(g_abort_calls))
 /* the first error is the one reported */
 __CPROVER_ensures((DEV_FAIL_OLD && OLD(DD->rv) != 0) ==> DD->rv == OLD(DD->rv))
 __CPROVER_ensures((DEV_FAIL_OLD && OLD(DD->rv) == 0) ==> DD->rv == (int) OLD(DP->aio.a_result))
